@@ -306,6 +306,205 @@ theorem cached_result_is_current (items : Items) (hn : (items.map (·.1)).Nodup)
   obtain ⟨rfl, rfl⟩ := heq
   exact ⟨e.2, alGet_of_mem_nodup items e.1 e.2 hn he, hs⟩
 
+/-! ### post-filter search: always sound, exact when the oversample pool covers the candidates -/
+
+/-- **What the post-filter strategy does guarantee** (`search_similar_filtered` with
+    `PostFilter`, or `Auto` choosing it, answered by brute force), after EVERY operation sequence:
+    the answer is a sub-list, in order, of the exact filtered ranking — so at most `k` results,
+    best first, no key twice, each a key stored NOW whose current vector has the query's
+    dimension, with its true score, and whose current metadata satisfies the filter.  What it
+    does not guarantee is completeness (`post_filter_not_topk_witness`) ... -/
+theorem post_filter_sound (ops : List Op) (q : List Int) (k : Nat) (f : Filter) (os : Nat)
+    (m' : Metric) (rs : List Cand) (cut k' : Nat)
+    (h : searchFiltered (run State.init ops) q k f .post os = .ranked m' rs cut k') :
+    (SearchOut.answer (.ranked m' rs cut k')).Sublist
+        (filteredRanking (run State.init ops).dflt.items .cosine q f) ∧
+    (SearchOut.answer (.ranked m' rs cut k')).length ≤ k ∧
+    (SearchOut.answer (.ranked m' rs cut k')).Pairwise (fun a b => candBetter .cosine a b = true) ∧
+    ((SearchOut.answer (.ranked m' rs cut k')).map (·.key)).Nodup ∧
+    (∀ c ∈ SearchOut.answer (.ranked m' rs cut k'), ∃ it,
+      alGet (run State.init ops).dflt.items c.key = some it ∧ (vecOf it).length = q.length ∧
+      c.score = score .cosine q (vecOf it) ∧ evalFilter it.md f = true) := by
+  have hk := keysOK_run ops State.init keysOK_init
+  simp only [searchFiltered] at h
+  split at h
+  · cases h
+  · split at h
+    · cases h
+    · split at h
+      · cases h
+      · obtain ⟨h1, h2, h3, h4⟩ := searchCore_ranked _ _ _ _ _ _ _ _ _ _ h
+        subst h1 h2 h3 h4
+        have hsub := postfilter_answer_sublist (run State.init ops).dflt.items .cosine q f (oversampleK k' os) k'
+        refine ⟨hsub, ?_, (filteredRanking_sorted _ _ _ _).sublist hsub,
+          (filteredRanking_keys_nodup _ hk.1 _ _ _).sublist (hsub.map _), ?_⟩
+        · simp only [SearchOut.answer, List.length_take]; omega
+        · intro c hc
+          exact mem_filteredRanking _ hk.1 _ _ _ c (hsub.subset hc)
+
+/-- ... unless the oversample pool (`max (k·oversample) k`) is at least as large as the number
+    of stored vectors of the query's dimension: then nothing is cut off and the post-filter answer
+    IS the exact top-`k` of the vectors satisfying the filter. -/
+theorem post_filter_exact_when_pool_covers (ops : List Op) (q : List Int) (k : Nat) (f : Filter)
+    (os : Nat) (m' : Metric) (rs : List Cand) (cut k' : Nat)
+    (h : searchFiltered (run State.init ops) q k f .post os = .ranked m' rs cut k')
+    (hpool : (candidates (run State.init ops).dflt.items .cosine q (some f)).length ≤ oversampleK k os) :
+    IsTopK (run State.init ops).dflt.items .cosine q (some f) k (SearchOut.answer (.ranked m' rs cut k')) := by
+  have hk := keysOK_run ops State.init keysOK_init
+  simp only [searchFiltered] at h
+  split at h
+  · cases h
+  · split at h
+    · cases h
+    · split at h
+      · cases h
+      · obtain ⟨h1, h2, h3, h4⟩ := searchCore_ranked _ _ _ _ _ _ _ _ _ _ h
+        subst h1 h2 h3 h4
+        exact postfilter_exact _ hk.1 _ _ _ _ _ hpool
+
+/-- the same two facts in a named collection, under the collection's configured metric -/
+theorem coll_post_filter_sound_and_exact (ops : List Op) (c : String) (q : List Int) (k : Nat)
+    (f : Filter) (os : Nat) (m' : Metric) (rs : List Cand) (cut k' : Nat)
+    (h : searchCollFiltered (run State.init ops) c q k f .post os = .ranked m' rs cut k') :
+    (SearchOut.answer (.ranked m' rs cut k')).Sublist
+        (filteredRanking (collOf (run State.init ops) c).items (cfgMetric (run State.init ops) c) q f) ∧
+    ((candidates (collOf (run State.init ops) c).items (cfgMetric (run State.init ops) c) q (some f)).length
+        ≤ oversampleK k os →
+      IsTopK (collOf (run State.init ops) c).items (cfgMetric (run State.init ops) c) q (some f) k
+        (SearchOut.answer (.ranked m' rs cut k'))) := by
+  have hk := keysOK_run ops State.init keysOK_init
+  simp only [searchCollFiltered] at h
+  split at h
+  · cases h
+  · split at h
+    · cases h
+    · split at h
+      · cases h
+      · split at h
+        · cases h
+        · obtain ⟨h1, h2, h3, h4⟩ := searchCore_ranked _ _ _ _ _ _ _ _ _ _ h
+          subst h1 h2 h3 h4
+          exact ⟨postfilter_answer_sublist _ _ _ _ _ _,
+            fun hpool => postfilter_exact _ (keysOK_collOf _ c hk) _ _ _ _ _ hpool⟩
+
+/-- `Auto` is one of the two strategies, chosen by the selectivity sample (so each `Auto`
+    answer is covered by the pre-filter or by the post-filter theorems) -/
+theorem auto_strategy_is_pre_or_post (st : State) (q : List Int) (k : Nat) (f : Filter) (os : Nat) :
+    searchFiltered st q k f .auto os = searchFiltered st q k f (chooseDefault st.dflt.items f) os ∧
+    (chooseDefault st.dflt.items f = .pre ∨ chooseDefault st.dflt.items f = .post) := by
+  have hch : chooseDefault st.dflt.items f = .pre ∨ chooseDefault st.dflt.items f = .post := by
+    simp only [chooseDefault]
+    split
+    · right; rfl
+    · split
+      · right; rfl
+      · split
+        · left; rfl
+        · right; rfl
+  refine ⟨?_, hch⟩
+  rcases hch with h | h <;> simp [searchFiltered, h]
+
+/-! ### metadata updates, batch stores, pagination -/
+
+/-- `update_metadata` / `remove_metadata_field` change no key, no stored vector and not the cached
+    index: the data the index was built from is still the current data (which is why these two
+    operations need not, and do not, invalidate it — `no_stale_cache` covers them). -/
+theorem metadata_ops_keep_vectors (st : State) (key field : String) (md : List (String × Int)) :
+    snapOf (step st (.updateMeta key md)).1.dflt.items = snapOf st.dflt.items ∧
+    (step st (.updateMeta key md)).1.dflt.cache = st.dflt.cache ∧
+    snapOf (step st (.removeMetaField key field)).1.dflt.items = snapOf st.dflt.items ∧
+    (step st (.removeMetaField key field)).1.dflt.cache = st.dflt.cache := by
+  refine ⟨?_, ?_, ?_, ?_⟩
+  · simp only [step]; split
+    · exact snapOf_alModify st.dflt.items key (fun it => ⟨it.repr, mergeMeta it.md md⟩) (fun _ => rfl)
+    · rfl
+  · simp only [step]; split <;> rfl
+  · simp only [step]; split
+    · exact snapOf_alModify st.dflt.items key (fun it => ⟨it.repr, alDel it.md field⟩) (fun _ => rfl)
+    · rfl
+  · simp only [step]; split <;> rfl
+
+/-- what filters see after `update_metadata`: a field given in the update has the new value,
+    every other field keeps its old one (the update is a map: field names are distinct) -/
+theorem update_metadata_merges (old new : List (String × Int)) (hn : (new.map (·.1)).Nodup) (f : String) :
+    alGet (mergeMeta old new) f = (alGet new f).or (alGet old f) :=
+  alGet_mergeMeta old new hn f
+
+/-- `batch_store_embeddings` is all-or-nothing on validation (one empty vector: nothing is
+    stored, the cached index stays) and otherwise IS the sequence of single stores, in order -/
+theorem batch_store_is_sequential (st : State) (inputs : List (String × List Int)) :
+    ((∃ e ∈ inputs, e.2 = []) → (step st (.batchStore inputs)).1 = st) ∧
+    ((∀ e ∈ inputs, e.2 ≠ []) →
+      (step st (.batchStore inputs)).1 = run st (inputs.map fun e => .store e.1 e.2)) := by
+  refine ⟨?_, ?_⟩
+  · rintro ⟨e, he, hemp⟩
+    simp only [step]
+    split
+    · rfl
+    · have : inputs.any (fun e => e.2.isEmpty) = true :=
+        List.any_eq_true.mpr ⟨e, he, by simp [hemp]⟩
+      simp [this]
+  · intro hall
+    cases inputs with
+    | nil => simp [step, run]
+    | cons e0 rest =>
+      have hany : (e0 :: rest).any (fun e => e.2.isEmpty) = false := by
+        rw [List.any_eq_false]
+        intro e he
+        have := hall e he
+        cases h : e.2 with
+        | nil => exact absurd h this
+        | cons _ _ => simp
+      simp only [step, List.isEmpty_cons, Bool.false_eq_true, ite_false, hany]
+      -- sequential stores: the items are folded in order, the cache ends up empty
+      have key : ∀ (l : List (String × List Int)) (s : State), (∀ e ∈ l, e.2 ≠ []) → l ≠ [] →
+          run s (l.map fun e => Op.store e.1 e.2)
+            = { s with dflt := ⟨l.foldl (fun items e => alPut items e.1 (mkItem e.2 [])) s.dflt.items, none⟩ } := by
+        intro l
+        induction l with
+        | nil => intro s _ hne; exact absurd rfl hne
+        | cons e es ih =>
+          intro s hl _
+          have he : e.2.isEmpty = false := by
+            have := hl e (by simp)
+            cases h : e.2 with
+            | nil => exact absurd h this
+            | cons _ _ => rfl
+          simp only [List.map_cons, run, step, he, Bool.false_eq_true, ite_false, List.foldl_cons]
+          cases es with
+          | nil => simp [run]
+          | cons e1 es1 =>
+            rw [ih _ (fun x hx => hl x (by simp [hx])) (by simp)]
+      rw [key (e0 :: rest) st hall (by simp)]
+
+/-- **Pagination hands out slices of the one top-`k` answer.**  After EVERY operation sequence:
+    whenever `search_similar_paginated(q, k, skip, limit)` is answered by brute force, the page is
+    `pageOf skip limit T` where `T` is the exact top-`k` (`IsTopK`) — the same `T` for every
+    page, so consecutive pages neither overlap nor skip a result. -/
+theorem paginated_is_slice_of_topk (ops : List Op) (q : List Int) (k skip : Nat) (limit : Option Nat)
+    (m' : Metric) (rs : List Cand) (cut k' : Nat)
+    (h : searchPaged (run State.init ops) q k skip limit = .ranked m' rs cut k') :
+    IsTopK (run State.init ops).dflt.items .cosine q none k (rs.take k) ∧
+    pageOf skip limit (SearchOut.answer (.ranked m' rs cut k')) = pageOf skip limit (rs.take k) := by
+  have hk := keysOK_run ops State.init keysOK_init
+  simp only [searchPaged, searchDefault] at h
+  split at h
+  · cases h
+  · split at h
+    · cases h
+    · split at h
+      · cases h
+      · obtain ⟨h1, h2, h3, h4⟩ := searchCore_ranked _ _ _ _ _ _ _ _ _ _ h
+        subst h1 h2 h3 h4
+        have hall : ∀ c ∈ rank .cosine (candidates (run State.init ops).dflt.items .cosine q none), c.pass = true :=
+          fun c hc => unfiltered_pass _ _ _ c ((sortBy_perm _ _).subset hc)
+        refine ⟨?_, ?_⟩
+        · have := unfiltered_answer (run State.init ops).dflt.items hk.1 .cosine q k
+          rw [answer_allpass _ _ _ hall] at this
+          exact this
+        · rw [answer_allpass _ _ _ hall]
+          exact pageOf_take _ _ k skip limit
+
 /-! ### what the current code does NOT satisfy (known findings), and regression witnesses -/
 
 def pfItems : List Op :=
@@ -375,5 +574,21 @@ example : (postProcessAnn [("a", [1, 0]), ("b", [0, 1])] (annWithTrueScores [("a
 example : toDense bitsOps (mkRepr bitsOps [2147483648, 0, 0, 1065353216]) = [0, 0, 0, 1065353216] := by decide
 example : toDense intOps (mkRepr intOps [0, 0, 5, 0]) = [0, 0, 5, 0] := repr_roundtrip_int _
 example : alHas (run State.init [.store "a" [1]]).dflt.items "a" = true := by decide
+-- metadata updates are seen by filters and leave a cached index in use (the vectors did not change)
+example : (searchFiltered (run State.init [.storeMeta "a" [1, 0] [("f", 0)], .storeMeta "b" [0, 1] [("f", 0)],
+      .updateMeta "b" [("f", 1)]]) [1, 1] 5 (.cmp .eq "f" 1) .pre 3).answer.map (·.key) = ["b"] := by decide
+example : (match searchDefault (run State.init [.store "a" [1, 2], .build, .updateMeta "a" [("f", 1)],
+      .removeMetaField "a" "f"]) [1, 2] 1 with
+    | .viaIndex snap _ _ _ => snap.length | _ => 0) = 1 := by decide
+-- a batch with an empty vector stores nothing; a valid one stores everything, last write of a key wins
+example : getDefault (step State.init (.batchStore [("a", [1]), ("b", [])])).1 "a" = none := by decide
+example : getDefault (step State.init (.batchStore [("a", [1]), ("b", [2]), ("a", [3])])).1 "a" = some [3] := by decide
+-- pages 1 and 2 (limit 2) of a top-5 search over three vectors
+example : (pageOf 0 (some 2) (searchPaged (run State.init [.store "a" [3, 0], .store "b" [2, 1], .store "c" [0, 1]])
+      [1, 0] 5 0 (some 2)).answer).map (·.key) = ["a", "b"] := by decide
+example : (pageOf 2 (some 2) (searchPaged (run State.init [.store "a" [3, 0], .store "b" [2, 1], .store "c" [0, 1]])
+      [1, 0] 5 2 (some 2)).answer).map (·.key) = ["c"] := by decide
+-- the post-filter hypotheses are satisfiable; with a pool that covers the data the answer is exact
+example : (searchFiltered (run State.init pfItems) [1, 0] 1 (.cmp .eq "f" 1) .post 5).answer.map (·.key) = ["e"] := by decide
 
 end Neumann.Vec.Props
